@@ -21,7 +21,7 @@ for p in props:
         "evidence_file": "/verif/evidence/%s.json" % pid,
         "replay_cmd_template": "./check --replay {path}",
         "engine": t.get("engine", "kani"),
-        "level_claimed": {"category": "model_checking", "text": t["level"], "design_ref": "DESIGN.md section 4, " + pid},
+        "level_claimed": {"category": "model_checking", "text": t["level"], "design_ref": "DESIGN.md section 4 (plan) and section 8.3 (as built), " + pid},
         "level_note": t["note"],
         "technique": t["technique"],
     })
